@@ -193,6 +193,15 @@ DEFECTS = {
         _sp(['file w.txt = "@[OK_S]@" -transformed-by WT_P'], support=['def string OK_S = ok', _WT['P']],
             tag='second_usage'),
         _sp(['run % echo @[OK_S]@ @[WT_TT]@'], support=['def string OK_S = ok', _WT['TT']], tag='second_usage'),
+        # a string symbol with several references of which a LATER one leads to a path / list symbol, used where only
+        # strings are admitted all the way down
+        _sp(['env unset @[FAN_C]@'], support=['def string OK_S = ok', _WT['P'], 'def string FAN_B = @[WT_P]@',
+                                              'def string FAN_C = @[OK_S]@@[FAN_B]@'], tag='indirect_sibling'),
+        _sp(['dir -rel-act @[FAN_C]@'], support=['def string OK_S = ok', _WT['L'], 'def string FAN_B = @[WT_L]@',
+                                                 'def string FAN_C = @[OK_S]@@[OK_S]@@[FAN_B]@'], tag='indirect_sibling'),
+        _sp(['def path FAN_Q = -rel-act @[FAN_C]@'], support=['def string OK_S = ok', _WT['L'],
+                                                             'def string FAN_C = @[OK_S]@@[WT_L]@'],
+            tag='indirect_sibling'),
         _sp(['exit-code WT_LM'], phases=('assert',), support=[_WT['LM']]),
         _sp(['stdout WT_S'], phases=('assert',), support=[_WT['S']]),
         _sp(['@ WT_S'], phases=('act',), support=[_WT['S']]),
@@ -230,6 +239,15 @@ DEFECTS = {
         _sp(['env MV = -contents-of missing.txt']),
         _sp(['file m.txt = -contents-of adir']),
         _sp(['copy -rel MH missing.txt'], support=['def path MH = -rel-home .']),
+        # the missing file as a text source WITH a transformation (each part of a text source has its own validator)
+        _sp(['file m.txt = -contents-of missing.txt -transformed-by char-case -to-upper'], tag='transformed'),
+        _sp(['file m.txt = -contents-of -rel-home missing.txt -transformed-by ( identity | strip )'], tag='transformed'),
+        _sp(['env MV = -contents-of missing.txt -transformed-by identity'], tag='transformed'),
+        _sp(['stdin = -contents-of missing.txt -transformed-by strip'], phases=('setup',), tag='transformed'),
+        _sp(['stdout equals -contents-of missing.txt -transformed-by char-case -to-lower'], phases=('assert',),
+            tag='transformed'),
+        _sp(['file m.txt = "x" -transformed-by replace -at contents equals -contents-of missing.txt a b'],
+            tag='transformed'),
         # a missing file named by an ABSOLUTE path (literal, -rel-here symbol, string symbol holding an absolute path)
         _sp(['copy /nonexistent-c03-dir/missing.txt'], tag='absolute'),
         _sp(['file m.txt = -contents-of /nonexistent-c03-dir/missing.txt'], tag='absolute'),
